@@ -53,6 +53,23 @@ fn main() {
                     text.push_str(&format!("\nRAW {}/{} | {}", n, d, dims.join(",")));
                 }
             }
+            if let Ok(rink_core::output::QueryReply::Conversion(c)) = &res {
+                if let Some(raw) = &c.value.raw_value {
+                    let (n, d) = match &raw.value {
+                        rink_core::types::Numeric::Rational(_) => {
+                            let (n, d) = raw.value.to_rational();
+                            (n.to_string(), d.to_string())
+                        }
+                        rink_core::types::Numeric::Float(f) => (format!("float:{}", f), "1".to_string()),
+                    };
+                    let dims: Vec<String> = raw.unit.iter().map(|(k, v)| format!("{}:{}", k, v)).collect();
+                    text.push_str(&format!("\nRAW {}/{} | {}", n, d, dims.join(",")));
+                    text.push_str(&format!("\nFACTOR {:?} DIVFACTOR {:?}", c.value.factor, c.value.divfactor));
+                }
+            }
+            if let Err(rink_core::output::QueryError::Conformance(e)) = &res {
+                text.push_str(&format!("\nSUGGESTIONS {}", e.suggestions.len()));
+            }
             // unit lists / duration breakdowns: PARTS <numer>/<denom> <unit>; ...
             fn part(p: &rink_core::output::NumberParts) -> String {
                 match &p.raw_value {
